@@ -156,6 +156,14 @@ def run_unit(unit):
             eng.sink(s)
         res["paths"] = npaths
         res["outcomes"] = outcomes
+        # a loop specification written for the unit's own function that never matched a loop is a mistake in the contract
+        # (wrong key): the loop would silently fall back to bounded unrolling
+        own = f"{getattr(fn, '__module__', '?')}.{getattr(fn, '__qualname__', '?')}"
+        tq = getattr(fn, "__qualname__", "?")
+        stale = [k for k in eng.loops if k not in eng.loops_used and (k[0] == own or k[0] == tq or not k[0].startswith("unified_planning."))]
+        if stale:
+            res["status"] = "unsupported"
+            res["error"] = f"loop specification(s) {stale} never matched a loop of the function under contract"
         if npaths == 0:
             res["status"] = "vacuous"
             res["error"] = "no feasible terminal path"
